@@ -87,9 +87,59 @@ def hashjoin_traces(events, failed_stmts):
             blk.append(norm(ev, lab, n=e["n"]))
         elif ev == "Flag" and e.get("op") in cur_of_op:
             cur_of_op[e["op"]].append(norm("Flag", e["what"], p=e.get("p", 0)))
-        elif ev == "Pass" and e.get("op") in cur_of_op:
+        elif ev == "Pass" and e.get("kind") is None and e.get("op") in cur_of_op:
             cur_of_op[e["op"]].append(norm("Pass", e["what"], p=e["p"],
                                            f=[int(e["ins_ready"]), int(e["scan_ready"]), int(e["drain_ready"])]))
+    return [l for blk in blocks for l in blk]
+
+
+HA_LABELS = ("remaining_normal", "remaining_distinct_mergers", "remaining_distinct_aggregators", "remaining_mergers",
+             "pending_distinct_mergers", "pending_distinct_aggregators", "pending_mergers", "pending_drainers")
+
+
+def hashagg_traces(events, failed_stmts):
+    """TraceHashAgg.tla lines for one vdriver case: one block per hash aggregate operator instance (as hashjoin_traces)."""
+    blocks, cur_of_op, obj2 = [], {}, {}
+    norm = lambda ev, lab="", ps=(), n=0, p=0, c=(0, 0, 0, 0), parts=0, distinct=False, failed=False: {
+        "ev": ev, "lab": lab, "ps": list(ps), "n": n, "p": p, "c": list(c), "parts": parts, "distinct": distinct, "failed": failed}
+    for stmt, e in stmt_of_events(events):
+        ev = e["ev"]
+        if ev == "OpInit" and e.get("kind") == "hash_aggregate":
+            blk = [norm("OpInit", parts=e["partitions"], distinct=bool(e["distinct"]), failed=stmt in failed_stmts)]
+            blocks.append(blk)
+            cur_of_op[e["op"]] = blk
+            for lab in HA_LABELS:
+                obj2[e[lab]] = (blk, lab)
+        elif ev in ("Store", "WakeAll") and e.get("obj") in obj2 and obj2[e["obj"]][1].startswith("pending"):
+            blk, lab = obj2[e["obj"]]
+            blk.append(norm(ev, lab, ps=e["ps"]))
+        elif ev in ("CountSet", "CountDec") and e.get("obj") in obj2 and obj2[e["obj"]][1].startswith("remaining"):
+            blk, lab = obj2[e["obj"]]
+            blk.append(norm(ev, lab, n=e["n"]))
+        elif ev == "Pass" and e.get("kind") == "hash_aggregate" and e.get("op") in cur_of_op:
+            cur_of_op[e["op"]].append(norm("Pass", e["what"], p=e["p"], c=[e["rn"], e["rdm"], e["rda"], e["rm"]]))
+    return [l for blk in blocks for l in blk]
+
+
+def sortmerge_traces(events, failed_stmts):
+    """TraceSortMerge.tla lines for one vdriver case: one block per sort merge queue instance (by queue address)."""
+    blocks, cur_of_q, obj2 = [], {}, {}
+    norm = lambda ev, ps=(), n=0, p=0, runs=0, running=0, some=False, parts=0, failed=False: {
+        "ev": ev, "ps": list(ps), "n": n, "p": p, "runs": runs, "running": running, "some": some, "parts": parts, "failed": failed}
+    for stmt, e in stmt_of_events(events):
+        ev = e["ev"]
+        if ev == "MqInit":
+            blk = [norm("MqInit", parts=e["partitions"], failed=stmt in failed_stmts)]
+            blocks.append(blk)
+            cur_of_q[e["q"]] = blk
+            obj2[e["count"]] = (blk, "count")
+            obj2[e["wakers"]] = (blk, "wakers")
+        elif ev in ("Store", "WakeAll") and e.get("obj") in obj2 and obj2[e["obj"]][1] == "wakers":
+            obj2[e["obj"]][0].append(norm(ev, ps=e["ps"]))
+        elif ev in ("CountSet", "CountDec") and e.get("obj") in obj2 and obj2[e["obj"]][1] == "count":
+            obj2[e["obj"]][0].append(norm(ev, n=e["n"]))
+        elif ev in ("MqAdd", "MqTake2", "MqDone", "MqFinished", "MqTakeRun") and e.get("q") in cur_of_q:
+            cur_of_q[e["q"]].append(norm(ev, n=e.get("n", 0), p=e.get("p", 0), runs=e["runs"], running=e["running"], some=bool(e.get("some", False))))
     return [l for blk in blocks for l in blk]
 
 
